@@ -83,7 +83,7 @@ def groups_arg(draw, d):
 @st.composite
 def est_spec(draw, classes=None, n_max=12, d_max=4, k_max=3, hidden_max=4, iter_max=3, lr=(0.01, 0.1, 0.5),
              cuts_max=2, batch_sizes=True, default_lr=False, gem_names=None, allow_instance=True, kernel_forms=None,
-             metric_forms=None, metric_names=None, n_min=None, d_min=1, xkinds=("normal", "grid", "scaled", "blobs", "line", "sorted")):
+             metric_forms=None, metric_names=None, n_min=None, d_min=1, xkinds=("normal", "grid", "scaled", "blobs", "line", "sorted", "mixed_units")):
     cls = draw(st.sampled_from(sorted(classes or GRADIENT_MODELS)))
     K = draw(st.integers(1, k_max))
     n = draw(st.integers(max(K, n_min or 1), max(n_max, K)))
@@ -132,6 +132,12 @@ def est_spec(draw, classes=None, n_max=12, d_max=4, k_max=3, hidden_max=4, iter_
         if mask is not None and not any(mask):
             mask[draw(st.integers(0, s["d"] - 1))] = True
         s["feature_mask"] = mask
+    if s["x"]["xkind"] == "mixed_units":
+        # columns in units of 1e5 are 'huge' data for models whose features grow like |x|^2..|x|^6 (legitimate overflow of
+        # fixed-step descent, see C04/C17): those keep unit-scale data
+        names = [a["name"] for a in (s.get("aff"), s.get("base_kernel"), (s.get("gemini") or {}).get("gs", {}).get("a")) if a]
+        if cls == "KernelRIM" or any(nm in ("poly", "polynomial") for nm in names):
+            s["x"]["xkind"] = "normal"
     return s
 
 
